@@ -494,15 +494,19 @@ func c12Run(t *rapid.T, st *kvh.Stats) {
 	c.Opt.Shards = kvh.Pick(t, []int{1, 2, 16}, "shards") // opening is the hot path here
 	pool := kvh.GenKeyPool(t, false)
 	n := 3 + kvh.U(t, 10, "nops")
-	withBig := kvh.Pct(t, 12, "big")
+	withBig := kvh.Pct(t, 14, "big")
+	bigAt := 1 + kvh.U(t, 2, "bigat")
+	bigBlocks := 1 + kvh.U(t, 2, "bigblocks")
 	i := 0
 	d, f := buildC12DB(c, func(r *kvh.Runner) (kvh.Op, bool) {
 		if i >= n {
 			return kvh.Op{}, false
 		}
 		i++
-		if withBig && i == 2 {
-			return kvh.Op{K: "put", Key: []byte("big"), VLen: kvh.BlockSize + kvh.U(t, 2000, "biglen"), VSeed: r.NextSeed()}, true
+		if withBig && i == bigAt {
+			// a record of 2 or 3 blocks; as the first record of the file its first chunk fills a whole block, and a
+			// 3-block record has a Middle chunk that does (chunk length 0x7ff9, the largest the format produces)
+			return kvh.Op{K: "put", Key: []byte("big"), VLen: bigBlocks*kvh.BlockSize + kvh.U(t, 2000, "biglen"), VSeed: r.NextSeed()}, true
 		}
 		op := kvh.GenOp(t, r, pool, c12Profile)
 		if op.K == "put" && op.VLen > 300 {
